@@ -51,6 +51,25 @@ class World:
     hang_count = 0  # number of Buffer.process calls stopped by the CPU watchdog in this process
 
     def __init__(self, specs, handlers=None, now="2024-01-01T00:00:00", guard_buffers=False):
+        self.loop = None
+        self._buffer_patch = None
+        self._M = None
+        try:
+            self._init(specs, handlers, now, guard_buffers)
+        except BaseException:
+            # never leave a half-built world behind: the virtual loop is installed as the running loop
+            if self.loop is not None:
+                try:
+                    self.loop.teardown()
+                except Exception:
+                    pass
+            if self._M is not None:
+                self._M.now = self._saved_now
+            if self._buffer_patch:
+                self._buffer_patch[0].process = self._buffer_patch[1]
+            raise
+
+    def _init(self, specs, handlers=None, now="2024-01-01T00:00:00", guard_buffers=False):
         import indi.message as M
         from indi.routing import Router
         from indi.transport.server import tcp as server_tcp
